@@ -26,6 +26,9 @@ pub struct Call {
     /// a register passed as JSON text that does not parse (register, bytes): a malformed row in the column. Like a bad
     /// item, only the frame condition is required of such a call; what matters is that the calls after it are unaffected.
     pub bad_text: Option<(usize, Vec<u8>)>,
+    /// selections on a kept `Selector` only: `exists` (1) or `predicate_match` (2) is called on the same object and
+    /// document first; the answer is dropped
+    pub warm: u8,
 }
 
 /// JSON text that does not parse and is not mistaken for JSONB by `is_jsonb` either.
@@ -84,10 +87,15 @@ fn documented_error(op: &Op, regs: &[MVal]) -> bool {
 
 impl Batch {
     fn args_for(case: &Case, call: &Call) -> Vec<Vec<u8>> {
+        let reads = call.op.reads();
         case.regs
             .iter()
             .enumerate()
             .map(|(i, v)| {
+                if !reads.contains(&i) {
+                    // never looked at by this call
+                    return Vec::new();
+                }
                 if let Some((_, bytes)) = call.bad_text.as_ref().filter(|(reg, _)| *reg == i) {
                     bytes.clone()
                 } else if call.text_regs.contains(&i) {
@@ -114,16 +122,25 @@ fn exec_huge(case: &Case, stats: &mut Stats) -> RunOut<Case> {
     stats.inc(if n >= (1usize << 32) - 64 { "probe/prior_buffer_4gib" } else { "probe/prior_buffer_256mib" });
     for (ci, call) in case.calls.iter().enumerate() {
         let name = call.op.name();
-        let args = if call.text_regs.is_empty() { bin.clone() } else { Batch::args_for(case, call) };
+        let own;
+        let args: &[Vec<u8>] = if call.text_regs.is_empty() {
+            &bin
+        } else {
+            own = Batch::args_for(case, call);
+            &own
+        };
         let tail_before: Vec<u8> = data[n..].to_vec();
         let before_len = data.len();
         let before_off = offsets.clone();
         stats.steps += 1;
         stats.inc2("calls_huge_prior", name);
-        let out = guard(|| ops::call(&call.op, &args, &case.regs, &mut data, &mut offsets));
+        if call.op.reads().iter().any(|r| args.get(*r).map_or(false, |a| a.len() >= 1 << 28)) {
+            stats.inc("probe/item_of_2pow28_bytes");
+        }
+        let out = guard(|| ops::call(&call.op, args, &case.regs, &mut data, &mut offsets));
         let mut fresh = Vec::new();
         let mut fresh_off = Vec::new();
-        let out2 = guard(|| ops::call(&call.op, &args, &case.regs, &mut fresh, &mut fresh_off));
+        let out2 = guard(|| ops::call(&call.op, args, &case.regs, &mut fresh, &mut fresh_off));
         let (out, out2) = match (out, out2) {
             (Err(p), _) | (_, Err(p)) => {
                 violations.push((Viol { class: format!("panic:{name}:{}", p.loc), detail: format!("call {ci} ({name}) with a {n}-byte prior buffer panicked at {}: {}", p.loc, p.msg) }, None));
@@ -181,8 +198,9 @@ fn exec_huge(case: &Case, stats: &mut Stats) -> RunOut<Case> {
                 }
             }
             LibOut::Wrote(Err(e)) => {
-                if call.expect_err && (data.len() != before_len || offsets != before_off) {
-                    violations.push((Viol { class: format!("error_after_write:{name}:{e}"), detail: format!("call {ci} ({name}) returned {e} for a documented reason but left new bytes in the buffer") }, None));
+                // every argument is valid: whatever error the function declares for it must leave the buffer alone
+                if data.len() != before_len || offsets != before_off {
+                    violations.push((Viol { class: format!("error_after_write:{name}:{e}"), detail: format!("call {ci} ({name}) returned {e} on valid arguments but left {} new bytes in the buffer", data.len() - before_len) }, None));
                     break;
                 }
             }
@@ -252,6 +270,7 @@ impl Scenario for Batch {
         let policy = r.below(4) as u8;
         let ncalls = r.urange(1, 40);
         let ocfg = OpGenCfg { kinds: &kinds, vals: &vals, filters: true, fail_pct };
+        let mixed_formats = r.chance(1, 2);
         let mut calls = vec![];
         for _ in 0..ncalls {
             let kind = *r.pick(&kinds);
@@ -299,8 +318,11 @@ impl Scenario for Batch {
                 }
             }
             // the text branch of the two-document functions is entered through the first argument only
-            if op.second_text_needs_first_text() && reads.len() == 2 && !text_regs.contains(&reads[0]) {
-                text_regs.clear();
+            if op.second_text_needs_first_text() && reads.len() == 2 && !text_regs.contains(&reads[0]) && !text_regs.is_empty() {
+                // (JSONB, text): kept in one batch in two
+                if !mixed_formats {
+                    text_regs.clear();
+                }
             }
             // a register used twice is text in both positions or in neither
             if reads.len() == 2 && reads[0] == reads[1] && !(op.arg_accepts_text(0) && op.arg_accepts_text(1)) {
@@ -321,7 +343,8 @@ impl Scenario for Batch {
                     bad_text = Some((cands[r.idx(cands.len())], r.pick(BAD_TEXTS).to_vec()));
                 }
             }
-            calls.push(Call { op, text_regs, expect_err, bad_item, bad_text });
+            let warm = if matches!(op, Op::Select { .. }) && r.chance(1, 3) { 1 + r.below(2) as u8 } else { 0 };
+            calls.push(Call { op, text_regs, expect_err, bad_item, bad_text, warm });
         }
         // a few batches per tier run against a buffer that has already grown past 2^28 resp. 2^32 bytes
         let prefill_zeros = if run % 60_000 == 7 {
@@ -359,10 +382,21 @@ impl Scenario for Batch {
                         text_regs.dedup();
                     }
                     let expect_err = documented_error(&op, &regs);
-                    calls.push(Call { op, text_regs, expect_err, bad_item: None, bad_text: None });
+                    calls.push(Call { op, text_regs, expect_err, bad_item: None, bad_text: None, warm: 0 });
+                }
+            }
+            // the first such batch of a tier also appends a giant ITEM: a container of 2^28 bytes, one more than the
+            // 28-bit length of an entry word can hold, handed to build_array and build_object last
+            if run % 120_000 == 7 && prefill_zeros < (1u64 << 30) {
+                regs.push(MVal::Arr(vec![MVal::Str("a".repeat((1usize << 28) - 1))]));
+                let g = regs.len() - 1;
+                for op in [Op::BuildArray { items: vec![1, g] }, Op::BuildObject { items: vec![("a".to_string(), 1), ("k".to_string(), g)] }] {
+                    let expect_err = documented_error(&op, &regs);
+                    calls.push(Call { op, text_regs: vec![], expect_err, bad_item: None, bad_text: None, warm: 0 });
                 }
             }
         }
+        let styles: Vec<TextStyle> = if styles.len() < regs.len() { styles.iter().copied().chain(std::iter::repeat(TextStyle::default())).take(regs.len()).collect() } else { styles };
         let reuse_selectors = r.chance(1, 2);
         Case { regs, styles, prefill, prefill_offsets, policy, calls, prefill_zeros, reuse_selectors }
     }
@@ -460,7 +494,10 @@ impl Scenario for Batch {
                 }
             }
             // the call under test, on the shared buffer
-            let out = guard(|| ops::call_with(&op_eff, args, &case.regs, &mut data, &mut offsets, reused));
+            let out = guard(|| {
+                ops::warm_selector(&op_eff, args, reused, call.warm);
+                ops::call_with(&op_eff, args, &case.regs, &mut data, &mut offsets, reused)
+            });
             // the same call on a fresh, empty buffer (and a selector built for this call)
             let mut fresh = Vec::new();
             let mut fresh_off = Vec::new();
@@ -567,8 +604,14 @@ impl Scenario for Batch {
                 LibOut::Wrote(Err(e)) => {
                     stats.inc2("errors", &format!("{name}:{e}"));
                     // 3. nothing is appended. Every argument of this call is valid, so an error it returns is one the function
-                    // declares for valid input whether or not the batch was built to provoke it
-                    if data != before || offsets != before_off {
+                    // declares for valid input whether or not the batch was built to provoke it. (A text second argument
+                    // next to a JSONB first one is read as JSONB by these functions -- a misuse, not valid input: exempt.)
+                    let reads = call.op.reads();
+                    let misuse = call.op.second_text_needs_first_text() && reads.len() == 2 && call.text_regs.contains(&reads[1]) && !call.text_regs.contains(&reads[0]);
+                    if misuse {
+                        stats.inc("probe/jsonb_first_text_second_call");
+                    }
+                    if !misuse && (data != before || offsets != before_off) {
                         if !call.expect_err {
                             stats.inc("probe/unexpected_err");
                         }
@@ -606,6 +649,35 @@ impl Scenario for Batch {
 
     fn shrink(&self, case: &Case) -> Vec<Case> {
         let mut out = vec![];
+        // Candidates are materialised: a case that carries a giant register (256 MiB) gets a short list -- fewer calls,
+        // then a smaller giant -- instead of hundreds of deep copies.
+        let big = case.regs.iter().map(|r| r.approx_bytes()).sum::<usize>();
+        if big > (32 << 20) {
+            let n = case.calls.len();
+            if n > 1 {
+                for part in [&case.calls[n - 1..], &case.calls[n / 2..], &case.calls[..n / 2]] {
+                    let mut c = case.clone();
+                    c.calls = part.to_vec();
+                    out.push(c);
+                }
+                for i in (0..n).rev().take(3) {
+                    let mut c = case.clone();
+                    c.calls.remove(i);
+                    out.push(c);
+                }
+            } else {
+                let (gi, _) = case.regs.iter().enumerate().max_by_key(|(_, r)| r.approx_bytes()).unwrap();
+                for t in shrink::shrink_tree(&case.regs[gi]).into_iter().take(6) {
+                    let mut c = case.clone();
+                    c.regs[gi] = t;
+                    for call in c.calls.iter_mut() {
+                        call.expect_err = documented_error(&call.op, &c.regs);
+                    }
+                    out.push(c);
+                }
+            }
+            return out;
+        }
         // fewer calls
         if case.calls.len() > 1 {
             let n = case.calls.len();
@@ -689,7 +761,7 @@ impl Scenario for Batch {
             "capacity_policy": case.policy,
             "prefill_zero_bytes": case.prefill_zeros,
             "reuse_selectors": case.reuse_selectors,
-            "calls": case.calls.iter().map(|c| json!({"call": c.op.to_json(), "text_regs": c.text_regs, "built_to_fail": c.expect_err,
+            "calls": case.calls.iter().map(|c| json!({"call": c.op.to_json(), "text_regs": c.text_regs, "built_to_fail": c.expect_err, "warm": c.warm,
                 "bad_item": c.bad_item.as_ref().map(|(p, b)| json!({"pos": p, "hex": mval::hex(b)})),
                 "bad_text": c.bad_text.as_ref().map(|(p, b)| json!({"reg": p, "hex": mval::hex(b)}))})).collect::<Vec<_>>(),
         })
@@ -709,6 +781,7 @@ impl Scenario for Batch {
                 op: Op::from_json(&c["call"])?,
                 text_regs: c["text_regs"].as_array().map(|a| a.iter().filter_map(|x| x.as_u64().map(|v| v as usize)).collect()).unwrap_or_default(),
                 expect_err: c["built_to_fail"].as_bool().unwrap_or(false),
+                warm: c["warm"].as_u64().unwrap_or(0) as u8,
                 bad_item: match c.get("bad_item") {
                     Some(b) if b.is_object() => Some((b["pos"].as_u64().unwrap_or(0) as usize, mval::unhex(b["hex"].as_str().unwrap_or(""))?)),
                     _ => None,
@@ -747,7 +820,7 @@ impl Scenario for Batch {
     fn assumptions(&self) -> Vec<String> {
         vec![
             "the oracle for appended bytes is the function's own empty-buffer output, executed in the same run (what the statement says); semantic correctness of those bytes is not judged here".into(),
-            "inputs are valid by construction (independent encoder / RFC 8259 writer); the text branch of two-document functions other than concat is entered through the first argument only".into(),
+            "inputs are valid by construction (independent encoder / RFC 8259 writer); the text branch of two-document functions other than concat is entered through the first argument only -- in half the batches a text second argument is also passed next to a JSONB first one (the functions then read the text as JSONB): frame, outcome and appended-bytes conditions are judged there, the error clause is not".into(),
             "'documented reason' = wrong container kind for delete_by_name/delete_by_index/delete_by_keypath/object_*, duplicate key with update_flag=false; decided by the tree model".into(),
         ]
     }
@@ -783,6 +856,7 @@ impl Scenario for Batch {
             "probe/unparsable_text_injected",
             "probe/compiled_selector_reused",
             "probe/prior_buffer_256mib",
+            "probe/item_of_2pow28_bytes",
         ]
     }
 }
